@@ -7,6 +7,7 @@ package main
 
 import (
 	"crypto/sha1"
+	"encoding/json"
 	"fmt"
 	"io"
 	"os"
@@ -17,6 +18,7 @@ import (
 	"sort"
 	"strings"
 	"sync"
+	"sync/atomic"
 	"time"
 
 	"github.com/sirupsen/logrus"
@@ -39,31 +41,34 @@ type subject struct {
 
 // sink collects what one job wants to tell the (single-threaded) Ctx; merged in job order.
 type sink struct {
-	hist   []string
-	counts []countRec
-	fails  []common.Failure
-	coq    []coqRec
+	H []string         `json:"h"`
+	C []countRec       `json:"c"`
+	F []common.Failure `json:"f"`
+	Q []coqRec         `json:"q"`
 }
 type countRec struct {
-	key string
-	nt  bool
+	Key string `json:"k"`
+	NT  bool   `json:"n"`
 }
 type coqRec struct {
-	term  string
-	rp    replay
-	ntoks int
+	Term  string `json:"t"`
+	RP    replay `json:"r"`
+	NToks int    `json:"n"`
 }
 
-func (s *sink) Hist(k string)           { s.hist = append(s.hist, k) }
-func (s *sink) Count(k string, nt bool) { s.counts = append(s.counts, countRec{k, nt}) }
+func (s *sink) Hist(k string) { s.H = append(s.H, k) }
+func (s *sink) Count(k string, nt bool) {
+	h := sha1.Sum([]byte(k))
+	s.C = append(s.C, countRec{fmt.Sprintf("%x", h[:10]), nt})
+}
 func (s *sink) Fail(key, what string, rp interface{}) {
-	s.fails = append(s.fails, common.Failure{Key: key, What: what, Replay: rp})
+	s.F = append(s.F, common.Failure{Key: key, What: what, Replay: rp})
 }
 func (s *sink) toCoq(toks []tokInfo, rp replay) {
 	if len(toks) > 4000 {
 		return
 	}
-	s.coq = append(s.coq, coqRec{gCase(toks), rp, len(toks)})
+	s.Q = append(s.Q, coqRec{gCase(toks), rp, len(toks)})
 }
 
 type runner struct {
@@ -98,28 +103,27 @@ func smallRef(rp replay) interface{} {
 }
 
 func (r *runner) merge(s *sink) {
-	for _, h := range s.hist {
+	for _, h := range s.H {
 		r.c.Hist(h)
 	}
-	for _, k := range s.counts {
-		h := sha1.Sum([]byte(k.key))
-		r.c.Count(string(h[:12]), k.nt)
+	for _, k := range s.C {
+		r.c.Count(k.Key, k.NT)
 	}
-	for _, f := range s.fails {
+	for _, f := range s.F {
 		r.c.Fail(f.Key, f.What, f.Replay)
 	}
-	for _, q := range s.coq {
-		if r.coqToks+q.ntoks > r.coqCap {
+	for _, q := range s.Q {
+		if r.coqToks+q.NToks > r.coqCap {
 			r.c.Hist("coq-case-dropped-over-token-cap")
 			continue
 		}
-		if r.fileToks > 0 && r.fileToks+q.ntoks > 25000 {
+		if r.fileToks > 0 && r.fileToks+q.NToks > 25000 {
 			r.cs.Close() // one case file = at most ~25 000 tokens (a few seconds and < 1 GB for coqc)
 			r.fileToks = 0
 		}
-		r.cs.Add(q.term, smallRef(q.rp))
-		r.coqToks += q.ntoks
-		r.fileToks += q.ntoks
+		r.cs.Add(q.Term, smallRef(q.RP))
+		r.coqToks += q.NToks
+		r.fileToks += q.NToks
 	}
 	*s = sink{}
 }
@@ -350,6 +354,7 @@ func (r *runner) report(out *sink, s subject, d *Doc, orig compiled, steps []Ste
 
 type job struct {
 	s          subject
+	seed       uint64 // the subject's own PRNG stream
 	rng        *common.Rng
 	nVariants  int
 	coqOrig    bool
@@ -358,7 +363,19 @@ type job struct {
 	out        sink
 }
 
+// jobReq is a job as sent to a worker subprocess
+type jobReq struct {
+	Name, Text, Path string
+	Seed             uint64
+	NVariants        int
+	CoqOrig, CoqVar  bool
+	Exhaustive       bool
+}
+
 func (r *runner) subject(j *job) {
+	if j.rng == nil {
+		j.rng = common.NewRng(j.seed)
+	}
 	s, c, rng := j.s, &j.out, j.rng
 	noteActive(j, "original")
 	defer active.Delete(j)
@@ -462,19 +479,43 @@ func (r *runner) subject(j *job) {
 	}
 }
 
+// Subjects are handled by worker subprocesses (this binary with VERIF_WORKER=1), one subject at a time per
+// worker, each worker replaced after a number of subjects.  Reason (measured): pkg/grammar keeps per-lexer state
+// in a package-level lock-free map (cornelk/hashmap v1.0.1) whose element count goes wrong under concurrent
+// Set/Del from many parses in one long-lived process; its index then doubles until the process dies
+// (a 64 GB makeslice was observed).  Short-lived single-subject workers keep that out of the check.
 func (r *runner) runJobs(jobs []*job) {
-	// Every parse builds its own ATN and DFA tables (NewThreadSafeSyslLexer / Parser), tens of MB of
-	// short-lived data per compile: memory is bounded by the number of workers, and finished jobs are
-	// merged (in job order, so the run is deterministic) and released as soon as all earlier ones are done.
 	workers := 8
 	ch := make(chan int)
 	done := make(chan int, len(jobs))
+	var lost int64
 	for w := 0; w < workers; w++ {
 		go func() {
+			wk := common.NewWorker()
+			n := 0
 			for i := range ch {
-				r.subject(jobs[i])
+				j := jobs[i]
+				req := jobReq{j.s.name, j.s.text, j.s.path, j.seed, j.nVariants, j.coqOrig, j.coqVar, j.exhaustive}
+				ok := false
+				for try := 0; try < 2 && !ok; try++ {
+					var out sink
+					died, timedOut, _ := wk.Call(req, &out, 15*time.Minute)
+					if !died && !timedOut {
+						j.out, ok = out, true
+					} else {
+						wk.Close()
+					}
+				}
+				if !ok {
+					atomic.AddInt64(&lost, 1)
+					j.out = sink{H: []string{"worker-lost-subject"}}
+				}
+				if n++; n%30 == 0 {
+					wk.Close() // next Call starts a fresh process
+				}
 				done <- i
 			}
+			wk.Close()
 		}()
 	}
 	go func() {
@@ -493,6 +534,41 @@ func (r *runner) runJobs(jobs []*job) {
 			next++
 		}
 	}
+	if lost > 0 {
+		r.c.Res.Notes = append(r.c.Res.Notes, fmt.Sprintf("%d subject(s) were dropped because the worker process handling them died or hung twice", lost))
+	}
+}
+
+// workerMain: serve subjects until stdin closes
+func workerMain() {
+	debug.SetGCPercent(50)
+	debug.SetMemoryLimit(600 << 20)
+	watchdog(1500)
+	repo := os.Getenv("VERIF_REPO")
+	if repo == "" {
+		repo = "/repo"
+	}
+	r := &runner{}
+	first := true
+	common.ServeWorker(func(line []byte) interface{} {
+		if first {
+			// ServeWorker holds the real stdout by now; what the code under test prints goes nowhere
+			devnull, _ := os.OpenFile(os.DevNull, os.O_WRONLY, 0)
+			os.Stdout, os.Stderr = devnull, devnull
+			logrus.SetOutput(io.Discard)
+			first = false
+		}
+		var q jobReq
+		if err := json.Unmarshal(line, &q); err != nil {
+			return sink{H: []string{"worker-bad-request"}}
+		}
+		if q.Path != "" && r.corpusFs == nil {
+			_, r.corpusFs = loadCorpus(repo)
+		}
+		j := &job{s: subject{q.Name, q.Text, q.Path}, seed: q.Seed, nVariants: q.NVariants, coqOrig: q.CoqOrig, coqVar: q.CoqVar, exhaustive: q.Exhaustive}
+		r.subject(j)
+		return j.out
+	})
 }
 
 // ---------- calcSpaces through the lexer: every whitespace string up to length L ----------
@@ -648,6 +724,10 @@ func watchdog(limitMB uint64) {
 }
 
 func main() {
+	if common.IsWorker() {
+		workerMain()
+		return
+	}
 	c := common.Setup("C03")
 	debug.SetGCPercent(50)
 	debug.SetMemoryLimit(2500 << 20)
@@ -694,7 +774,7 @@ Notation T := true. Notation F := false.`
 			if len(lines) > 1 {
 				calcProbe(&out, leadOf(lines[1]))
 			}
-			fmt.Fprintf(realOut, "replay calc-probe %q: failures=%d\n", rp.Text, len(out.fails))
+			fmt.Fprintf(realOut, "replay calc-probe %q: failures=%d\n", rp.Text, len(out.F))
 			return
 		}
 		toks, ok := lexAll(rp.Text)
@@ -807,7 +887,7 @@ Notation T := true. Notation F := false.`
 		if c.Thorough() {
 			nvg = 3
 		}
-		jobs = append(jobs, &job{s: subject{name: fmt.Sprintf("generated-%d", i), text: text}, rng: c.Rng.Fork(), nVariants: nvg,
+		jobs = append(jobs, &job{s: subject{name: fmt.Sprintf("generated-%d", i), text: text}, seed: c.Rng.Uint64(), nVariants: nvg,
 			coqOrig: true, coqVar: true, exhaustive: i%40 == 0 && len(text) < 1000})
 		if i < 3 {
 			c.Sample(map[string]interface{}{"generated_text": text})
@@ -832,7 +912,7 @@ Notation T := true. Notation F := false.`
 			continue // quick: every other corpus file, alternating with the seed
 		}
 		coq := (i+int(c.Seed))%coqEvery == 0 && r.planCoq(s.text)
-		jobs = append(jobs, &job{s: s, rng: c.Rng.Fork(), nVariants: nv, coqOrig: coq, coqVar: coq, exhaustive: c.Thorough() && len(s.text) < 1000})
+		jobs = append(jobs, &job{s: s, seed: c.Rng.Uint64(), nVariants: nv, coqOrig: coq, coqVar: coq, exhaustive: c.Thorough() && len(s.text) < 1000})
 	}
 	r.runJobs(jobs)
 	c.Res.Extra["t_corpus_s"] = time.Since(t0).Seconds()
